@@ -80,6 +80,11 @@ def gen_cases(chk):
                            # then relative to a range the caller never sees, so only ABS is a meaningful oracle there
             h5.append("h5rt %x %s %s %x %s %s %x" % (ty, ",".join("%x" % v for v in dims), ",".join("%x" % v for v in chunk), mode,
                                                      dbits(absb), dbits(rel), rng.getrandbits(20)))
+    # every integer type with a range-relative bound that comes out integral (value range exactly 2A in every chunk), signed types on both
+    # sides of zero: the filter must derive the element type (and with it the range) as the dataset declares it
+    for dims, chunk in (((64, 96), (32, 96)), ((640,), (320,)), ((8, 8, 16), (4, 8, 16))):
+        for ty in range(2, 10):
+            h5.append("h5rt %x %s %s 1 %s %s %x" % (ty, ",".join("%x" % v for v in dims), ",".join("%x" % v for v in chunk), dbits(1.0), dbits(1e-2), rng.getrandbits(16) | 0x40000))
     # datasets with a masked region: whole chunks of one value (their SZ streams are a few dozen bytes)
     for dims, chunk in (((64, 64), (32, 32)), ((1000,), (250,)), ((16, 16, 16), (8, 16, 16)), ((40, 30), (20, 30))):
         for ty in (0, 1, rng.choice((4, 6, 9))):
@@ -133,6 +138,8 @@ def h5_oracle(case, out):
         return "HDF5 status " + str(d.get("st"))
     if int(d["viol"], 16):
         return "%d elements outside the bound (first %d, max error %g, e %g)" % (int(d["viol"], 16), int(d["first"], 16), dbl(d["maxerr"]), dbl(d["e"]))
+    if "rtype" in d and int(d["rtype"]) != int(case.split(" ")[1], 16):
+        return "the filter recorded element type %s for a dataset of type %d" % (d["rtype"], int(case.split(" ")[1], 16))
     return None
 
 
